@@ -1,6 +1,7 @@
 (* C03 -- proofs.  All statements are about the definitions of Gen/C03_gen.v (translated from the
    source on every run) through the thin wrappers of Model/C03.v. *)
 From Coq Require Import ZArith List Bool Lia ZifyBool.
+From Coq Require Import String.
 From PV Require Import Bytes C03_gen C03.
 Import ListNotations.
 Open Scope Z_scope.
@@ -255,6 +256,41 @@ Proof.
     apply (min_packet_excl (negotiated c m) len); [cbn [negotiated m_bs]; lia | exact Hlen | exact Hy].
   - destruct (m_etm (negotiated c m) || m_aead (negotiated c m)) eqn:Hy; [discriminate|].
     apply min_packet_16; [cbn [negotiated m_bs]; lia | exact H8 | exact Hlen | exact Hy].
+Qed.
+
+(* ---- the generated tables against the reference meaning of the algorithm names -------------------- *)
+Lemma tables_match_rfc_bool :
+  forallb mac_matches_rfc c03_mac_table && forallb cipher_matches_rfc c03_cipher_table = true.
+Proof. vm_compute. reflexivity. Qed.
+
+Lemma mac_entry_rfc m sz etm :
+  In m c03_mac_table -> assoc (ma_name m) rfc_macs = Some (sz, etm) -> ma_size m = sz /\ ma_etm m = etm.
+Proof.
+  intros Hin Ha. pose proof tables_match_rfc_bool as H. apply andb_true_iff in H. destruct H as [H _].
+  rewrite forallb_forall in H. specialize (H m Hin). unfold mac_matches_rfc in H. rewrite Ha in H.
+  apply andb_true_iff in H. destruct H as [H1 H2]. apply Z.eqb_eq in H1. apply Bool.eqb_prop in H2. auto.
+Qed.
+
+Lemma cipher_entry_rfc c bs aead :
+  In c c03_cipher_table -> assoc (ci_name c) rfc_ciphers = Some (bs, aead) -> ci_bs c = bs /\ ci_aead c = aead.
+Proof.
+  intros Hin Ha. pose proof tables_match_rfc_bool as H. apply andb_true_iff in H. destruct H as [_ H].
+  rewrite forallb_forall in H. specialize (H c Hin). unfold cipher_matches_rfc in H. rewrite Ha in H.
+  apply andb_true_iff in H. destruct H as [H1 H2]. apply Z.eqb_eq in H1. apply Bool.eqb_prop in H2. auto.
+Qed.
+
+(* the tag written for a negotiated suite has the length the RFCs give for the negotiated NAMES *)
+Lemma tag_len_rfc c m bs aead sz etm :
+  In c c03_cipher_table -> In m c03_mac_table ->
+  assoc (ci_name c) rfc_ciphers = Some (bs, aead) -> assoc (ma_name m) rfc_macs = Some (sz, etm) ->
+  tag_len (negotiated c m) (ma_digest m) 16 = (if aead then 16 else sz) /\
+  ci_bs c = bs /\ align_offset (negotiated c m) = (if aead || etm then 4 else 0).
+Proof.
+  intros Hc Hm Hac Ham.
+  destruct (mac_entry_rfc m sz etm Hm Ham) as [<- <-].
+  destruct (cipher_entry_rfc c bs aead Hc Hac) as [<- <-].
+  destruct (tag_len_negotiated c m Hc Hm) as [Ht _].
+  split; [exact Ht|]. split; [reflexivity|]. apply negotiated_offset.
 Qed.
 
 (* ---- byte level ------------------------------------------------------------------------------------ *)
